@@ -132,7 +132,7 @@ def main(ck):
 
     def go(idx, asan, nproc, tag):
       if idx:
-        out = asanproc.run_jobs('checks.c21_worker', [jobs[i] for i in idx], nproc=nproc, asan=asan, tag=tag, timeout=tmo)
+        out = asanproc.run_jobs('checks.c21_worker', [jobs[i] for i in idx], nproc=nproc, asan=asan, tag=tag, timeout=tmo, stall=300)
         for i, o in zip(idx, out):
           res[i] = o
     ths = [threading.Thread(target=go, args=(ia, True, npa, 'C21asan')),
